@@ -346,12 +346,26 @@ class DataFrameSchemaBackend(PolarsSchemaBackend):
         # Set column order: the schema's columns first. Columns that are not
         # in the schema are kept: removing them is what strict="filter" does.
         frame_columns = get_lazyframe_column_names(check_obj)
-        other_columns = [
-            col for col in frame_columns if col not in schema.columns
-        ]
         # (an optional column that is absent is not added, and a regex
-        # column is not a column name: select what the frame has)
-        schema_columns = [col for col in schema.columns if col in frame_columns]
+        # column stands for the columns it matches: select what the frame
+        # has, in the order of the schema)
+        schema_columns: List[Any] = []
+        for col_name, col_schema in schema.columns.items():
+            if getattr(col_schema, "regex", False):
+                try:
+                    schema_columns.extend(
+                        col_schema.get_backend(check_obj).get_regex_columns(
+                            col_schema, check_obj
+                        )
+                    )
+                except SchemaError:
+                    pass
+            elif col_name in frame_columns:
+                schema_columns.append(col_name)
+        schema_columns = [*dict.fromkeys(schema_columns)]
+        other_columns = [
+            col for col in frame_columns if col not in schema_columns
+        ]
         check_obj = check_obj.select([*schema_columns, *other_columns])
         return check_obj
 
